@@ -496,6 +496,25 @@ def wrDec (f : Fmt) (a : Limbs) : String :=
   let ds := if isZero t then ['0'] else digitsLoop f.w (f.N + 1) t []
   String.ofList (if neg then '-' :: ds else ds)
 
+/-! ## `cnl::to_chars` on a wide_integer (charconv/to_chars.h): recursion on `value / 10`, digit = `value - quotient * 10` -/
+
+def toCharsNatural (f : Fmt) : Nat → Limbs → List Char → Option (List Char)
+  | 0, _, _ => none
+  | fuel+1, v, acc =>
+    let ten := fromBuiltin f i32 10
+    match opDiv f v ten with
+    | none => none
+    | some o =>
+      let rem := opSub f.w v (opMul f.w o.q ten)
+      let c := Char.ofNat (48 + (toBuiltin f i32 rem).toNat)
+      if isZero o.q then some (c :: acc) else toCharsNatural f fuel o.q (c :: acc)
+
+/-- `cnl::to_chars_static(value)` for a value within `numeric_limits` (the routine's documented domain) -/
+def toChars (f : Fmt) (a : Limbs) : Option String :=
+  if isZero a then some "0"
+  else if isNeg f a then (toCharsNatural f (f.N + 1) (negate f.w a) []).map (fun ds => String.ofList ('-' :: ds))
+  else (toCharsNatural f (f.N + 1) a []).map String.ofList
+
 /-! ## numeric_limits<wide_integer<Digits, Narrowest>> -/
 
 /-- `numeric_limits<rep>::digits` -/
